@@ -68,7 +68,7 @@ def foreign_for(univ, k):
 def score_cases(draw, tier):
     big = tier == "thorough"
     scheme = draw(gen.any_schemes())
-    ds = draw(gen.datasets(max_n=12 if big else 8, max_m=8 if big else 5))
+    ds = draw(gen.datasets(max_n=12 if big else 8, max_m=8 if big else 5, many="thousand"))
     univ = oracle.universe(ds["rankings"])
     nf = draw(st.sampled_from([0, 0, 0, 1, 2]))
     cand = draw(gen.candidates(univ, foreign_for(univ, nf)))
